@@ -276,7 +276,7 @@ fn run_merges(ctx: &Ctx) -> Report {
 
 fn run_clones(ctx: &Ctx) -> Report {
     let mut jobs = Vec::new();
-    let reps = ctx.pick(2u64, 8u64);
+    let reps = ctx.pick(8u64, 80u64);
     for kind in ALL_KINDS {
         let periods: Vec<usize> = if kind.n_periods() == 0 { vec![1] } else { vec![1, 2, 3, 4, 5, 6, 7, 8, 13, 30] };
         for n in periods {
@@ -376,7 +376,7 @@ fn run_threads(ctx: &Ctx) -> Report {
     let mut rep = Report::new();
     let workers = 16u64;
     let steps = ctx.pick(400usize, 1500usize);
-    let rounds = ctx.pick(12usize, 60usize);
+    let rounds = ctx.pick(30usize, 400usize);
     let mut interleavings: HashSet<u64> = HashSet::new();
     for round in 0..rounds {
         let seed = ctx.seed.wrapping_add(round as u64 * 7919);
